@@ -153,6 +153,20 @@ def _worker(chunk):
     return out
 
 
+def is_heavy(job):
+    """jobs that take seconds each (the Knuth-D cells): scheduled first, one per chunk"""
+    def walk(j):
+        return isinstance(j, tuple) and (j[:2] == ('U', 'special') or any(walk(x) for x in j))
+    return walk(job)
+
+
+def split_chunks(jobs, nproc, chunk, wrap):
+    heavy = [j for j in jobs if is_heavy(j)]
+    light = [j for j in jobs if not is_heavy(j)]
+    chunk = chunk or max(1, min(64, len(light) // (nproc * 4) or 1))
+    return [wrap([j]) for j in heavy] + [wrap(light[i:i + chunk]) for i in range(0, len(light), chunk)]
+
+
 def run_jobs(rep, modname, jobs, nproc=None, chunk=None):
     """run spec jobs in worker processes; every job yields obligations (rule, key, ok, detail, site)"""
     jobs = list(jobs)
@@ -162,11 +176,10 @@ def run_jobs(rep, modname, jobs, nproc=None, chunk=None):
     if rep.only_key or len(jobs) < 8 or nproc == 1:
         res = [_worker((modname, jobs))]
     else:
-        chunk = chunk or max(1, min(64, len(jobs) // (nproc * 4) or 1))
-        chunks = [(modname, jobs[i:i + chunk]) for i in range(0, len(jobs), chunk)]
+        chunks = split_chunks(jobs, nproc, chunk, lambda js: (modname, js))
         ctx = mp.get_context('fork')
         with ctx.Pool(nproc) as pool:
-            res = pool.map(_worker, chunks)
+            res = pool.map(_worker, chunks, chunksize=1)
     for r in res:
         for (rule, key, ok, detail, site) in r:
             rep.ob(rule, key, ok, detail, site)
@@ -243,13 +256,12 @@ def map_jobs(fn_name, modname, jobs, nproc=None, chunk=None):
     import importlib
     jobs = list(jobs)
     nproc = nproc or min(16, os.cpu_count() or 4)
-    chunk = chunk or max(1, min(64, len(jobs) // (nproc * 4) or 1))
-    chunks = [(fn_name, modname, jobs[i:i + chunk]) for i in range(0, len(jobs), chunk)]
+    chunks = split_chunks(jobs, nproc, chunk, lambda js: (fn_name, modname, js))
     if len(jobs) < 8 or nproc == 1:
         return [_map_worker(c) for c in chunks]
     ctx = mp.get_context('fork')
     with ctx.Pool(nproc) as pool:
-        return pool.map(_map_worker, chunks)
+        return pool.map(_map_worker, chunks, chunksize=1)
 
 
 def _map_worker(c):
